@@ -19,7 +19,7 @@ Lemma x_watch_empty C f pos o X : pend X = [] -> (wp_cpu C || wp_var C) = true -
   let copy := match v_copy X with Some y => y | None => o_var o end in
   let differs := wp_var C && negb (o_var o =? copy) in
   let hit := differs && negb (g_init X && (o_var o =? g_val X)) in
-  w_inited X' = true /\ v_copy X' = (if fix_var C && differs then Some (o_var o) else v_copy X) /\
+  w_inited X' = true /\ v_copy X' = (if differs then Some (o_var o) else v_copy X) /\
   (wp_cpu C = true -> w_cpu X' = o_cpu o) /\
   cpu_values (map a_ev (pend X')) =
     (if wp_cpu C && (negb (w_cpu X =? o_cpu o)%Z || negb (w_inited X)) then [cpu_word (o_cpu o)] else []) /\
@@ -28,7 +28,7 @@ Lemma x_watch_empty C f pos o X : pend X = [] -> (wp_cpu C || wp_var C) = true -
 Proof.
   intros Hp Hw. unfold x_watch. rewrite Hw, Hp. cbn [negb].
   unfold full, cpu_values, var_values.
-  destruct (fix_var C); destruct (wp_cpu C) eqn:Ec; destruct (wp_var C) eqn:Ev; try discriminate;
+  destruct (wp_cpu C) eqn:Ec; destruct (wp_var C) eqn:Ev; try discriminate;
     destruct (w_inited X); destruct (w_cpu X =? o_cpu o)%Z;
     destruct (v_copy X) as [y|]; rewrite ?N.eqb_refl;
     try destruct (o_var o =? y); destruct (g_init X); destruct (o_var o =? g_val X);
@@ -51,82 +51,17 @@ Proof.
 Qed.
 
 (* ---------------------------------------------------------------- var *)
-Fixpoint all_ne (v0 : N) (l : list N) : Prop :=
-  match l with [] => True | v :: r => v <> v0 /\ all_ne v0 r end.
-(* once the variable has left its initial value it does not come back to it *)
-Fixpoint no_return (v0 : N) (l : list N) : Prop :=
-  match l with [] => True | v :: r => if v =? v0 then no_return v0 r else all_ne v0 r end.
-
-Lemma var_phase_b C v0 : fix_var C = false -> wp_var C = true -> forall l X, pend X = [] -> v_copy X = Some v0 ->
-  g_init X = true -> all_ne v0 (map (fun p => o_var (snd p)) l) ->
-  var_values (wrun C l X) = nchanges_from (g_val X) (map (fun p => o_var (snd p)) l).
-Proof.
-  intros Hfx Hv. induction l as [|[t o] r IH]; intros X Hp Hc Hg Hall; [reflexivity|].
-  cbn [wrun map snd nchanges_from]. cbn [map snd all_ne] in Hall. destruct Hall as [Hne Hall].
-  assert (Hw : (wp_cpu C || wp_var C) = true) by (rewrite Hv; apply orb_true_r).
-  destruct (x_watch_empty C (dummy_frame t) 0 o X Hp Hw) as (_ & Hcp & _ & _ & Hvv & Hgi & Hgv).
-  rewrite Hfx in Hcp. cbn [andb] in Hcp.
-  rewrite Hc, Hv, Hg in Hvv, Hgi, Hgv. cbn [andb] in Hvv, Hgi, Hgv.
-  assert (E : (o_var o =? v0) = false) by (apply N.eqb_neq; exact Hne). rewrite E in Hvv, Hgi, Hgv.
-  cbn [negb andb] in Hvv, Hgi, Hgv.
-  rewrite var_values_app, Hvv. f_equal.
-  - rewrite (N.eqb_sym (g_val X) (o_var o)). destruct (o_var o =? g_val X); reflexivity.
-  - rewrite IH; cbn [set_pend pend v_copy g_init g_val]; try reflexivity; try assumption.
-    + rewrite Hgv. destruct (o_var o =? g_val X) eqn:E2; cbn [negb]; [|reflexivity].
-      apply N.eqb_eq in E2. rewrite E2. reflexivity.
-    + rewrite Hcp. exact Hc.
-    + rewrite Hgi. destruct (negb (o_var o =? g_val X)); reflexivity.
-Qed.
-
-Theorem var_run C v0 : fix_var C = false -> wp_var C = true -> forall l X, pend X = [] -> v_copy X = Some v0 ->
-  g_init X = false -> no_return v0 (map (fun p => o_var (snd p)) l) ->
-  var_values (wrun C l X) = nchanges_from v0 (map (fun p => o_var (snd p)) l).
-Proof.
-  intros Hfx Hv. induction l as [|[t o] r IH]; intros X Hp Hc Hg Hnr; [reflexivity|].
-  cbn [wrun map snd nchanges_from]. cbn [map snd no_return] in Hnr.
-  assert (Hw : (wp_cpu C || wp_var C) = true) by (rewrite Hv; apply orb_true_r).
-  destruct (x_watch_empty C (dummy_frame t) 0 o X Hp Hw) as (_ & Hcp & _ & _ & Hvv & Hgi & Hgv).
-  rewrite Hfx in Hcp. cbn [andb] in Hcp.
-  rewrite Hc, Hv, Hg in Hvv, Hgi, Hgv. cbn [andb negb] in Hvv, Hgi, Hgv. rewrite andb_true_r in Hvv, Hgi, Hgv.
-  rewrite var_values_app, Hvv.
-  destruct (o_var o =? v0) eqn:E.
-  - apply N.eqb_eq in E. rewrite E in *. rewrite N.eqb_refl. cbn [negb app].
-    apply IH; cbn [set_pend pend v_copy g_init]; try reflexivity; try assumption.
-    + rewrite Hcp. exact Hc.
-  - rewrite (N.eqb_sym v0 (o_var o)), E. cbn [negb]. f_equal.
-    cbn [negb] in Hgi, Hgv.
-    rewrite (var_phase_b C v0 Hfx Hv r (set_pend (x_watch C (dummy_frame t) 0 o X) [])); cbn [set_pend pend v_copy g_init g_val];
-      try reflexivity; try assumption.
-    + rewrite Hgv. reflexivity.
-    + rewrite Hcp. exact Hc.
-Qed.
-
-(* Without the guard the statement is false: the thread's copy is never updated, so a change back to
-   the value the variable had at the thread's first hook is not reported (3 -> 4 -> 3: one event) *)
-Definition var_cfg : xcfg :=
-  {| xb := plain 0 1024 1024 PG; read_of := fun _ => 0; wp_cpu := false; wp_var := true; pmu_ok := false;
-     fix_var := false; fix_drop := false |}.
-Definition ov (v : N) : oval :=
-  {| o_statm := []; o_pf := []; o_cycle := []; o_cache := []; o_branch := []; o_cpu := 0%Z; o_var := v |}.
-Definition var_x0 : xpart :=
-  {| xs := []; pend := []; w_inited := false; w_cpu := (-1)%Z; v_copy := Some 3; g_init := false; g_val := 0;
-     xout := [] |}.
-Lemma var_watch_refuted :
-  var_values (wrun var_cfg [(100, ov 3); (110, ov 4); (120, ov 3)] var_x0) = [4] /\
-  nchanges_from 3 [3; 4; 3] = [4; 3].
-Proof. split; reflexivity. Qed.
-
-(* With proposed-fixes/C17-2.diff (the thread's copy follows the observations) the statement holds for
-   every sequence: an event exactly when the value differs from the thread's previous observation *)
-Theorem var_run_fixed C : fix_var C = true -> wp_var C = true -> forall l X v0, pend X = [] -> v_copy X = Some v0 ->
+(* -W var, one thread: for EVERY sequence of values an event exactly when the value differs from the
+   thread's previous observation (v0: the copy made at the thread's first hook) *)
+Theorem var_run C : wp_var C = true -> forall l X v0, pend X = [] -> v_copy X = Some v0 ->
   (g_init X = true -> g_val X = v0) ->
   var_values (wrun C l X) = nchanges_from v0 (map (fun p => o_var (snd p)) l).
 Proof.
-  intros Hfx Hv. induction l as [|[t o] r IH]; intros X v0 Hp Hc Hg; [reflexivity|].
+  intros Hv. induction l as [|[t o] r IH]; intros X v0 Hp Hc Hg; [reflexivity|].
   cbn [wrun map snd nchanges_from].
   assert (Hw : (wp_cpu C || wp_var C) = true) by (rewrite Hv; apply orb_true_r).
   destruct (x_watch_empty C (dummy_frame t) 0 o X Hp Hw) as (_ & Hcp & _ & _ & Hvv & Hgi & Hgv).
-  rewrite Hfx, Hc, Hv in Hcp. rewrite Hc, Hv in Hvv, Hgi, Hgv. cbn [andb] in Hcp, Hvv, Hgi, Hgv.
+  rewrite Hc, Hv in Hcp. rewrite Hc, Hv in Hvv, Hgi, Hgv. cbn [andb] in Hcp, Hvv, Hgi, Hgv.
   rewrite var_values_app, Hvv.
   destruct (o_var o =? v0) eqn:E.
   - apply N.eqb_eq in E. rewrite E in *. rewrite N.eqb_refl. cbn [negb andb app] in *.
@@ -142,12 +77,23 @@ Proof.
     + intros _. exact Hgv.
 Qed.
 
-Definition var_cfg_fixed : xcfg :=
-  {| xb := plain 0 1024 1024 PG; read_of := fun _ => 0; wp_cpu := false; wp_var := true; pmu_ok := false;
-     fix_var := true; fix_drop := false |}.
-Example var_watch_fixed_example :
-  var_values (wrun var_cfg_fixed [(100, ov 3); (110, ov 4); (120, ov 3)] var_x0) = [4; 3].
+Definition var_cfg : xcfg :=
+  {| xb := plain 0 1024 1024 PG; read_of := fun _ => 0; wp_cpu := false; wp_var := true; pmu_ok := false |}.
+Definition ov (v : N) : oval :=
+  {| o_statm := []; o_pf := []; o_cycle := []; o_cache := []; o_branch := []; o_cpu := 0%Z; o_var := v |}.
+Definition var_x0 : xpart :=
+  {| xs := []; pend := []; w_inited := false; w_cpu := (-1)%Z; v_copy := Some 3; g_init := false; g_val := 0;
+     xout := [] |}.
+Example var_watch_example :
+  var_values (wrun var_cfg [(100, ov 3); (110, ov 4); (120, ov 3)] var_x0) = [4; 3].
 Proof. reflexivity. Qed.
+
+(* LEGACY (before aa8baff): the thread's copy was never updated, so a change back to the value the
+   variable had at the thread's first hook was not reported (3 -> 4 -> 3: one event) *)
+Lemma var_watch_legacy_refuted :
+  var_values (wrun_legacy var_cfg [(100, ov 3); (110, ov 4); (120, ov 3)] var_x0) = [4] /\
+  nchanges_from 3 [3; 4; 3] = [4; 3].
+Proof. split; reflexivity. Qed.
 
 (* ---------------------------------------------------------------- the MAX_EVENT limit *)
 (* with MAX_EVENT events pending nothing is queued, but the cpu observation is still overwritten:
